@@ -126,6 +126,25 @@ NEEDS = {
     "C17-6": "the same top-level key in two sources where both values are maps with disjoint inner keys: merged recursively instead of being refused",
     "C18-6": "to_upper / to_lower on a string with cased non-ASCII letters (é, Ü): only ASCII letters change case",
     "C19-6": "a negative non-integer property (Threshold: -1.5): the emitted literal parses but loses its sign",
+    "C01-7": "a negated `in` (not in / !in / prefix not) whose left side is a whole list value partially overlapping the right-hand list: FAIL becomes PASS",
+    "C02-7": "a rule name defined twice, the first definition PASS and a later one SKIP, referenced by name from another rule: the reference is FAIL",
+    "C03-7": "a prefix not/NOT/! on a binary clause whose right-hand side is an inline function call (x == to_upper(..)): the negation is ignored",
+    "C04-7": "a rule referenced by name from a rule defined EARLIER in the file: its top-level record is missing, so reports and `test` lose the rule",
+    "C05-7": "rulegen on a template where one property of one type has values equal up to letter case (Private/private/PRIVATE): their order varies per run",
+    "C06-7": "validate with `--rules <file> --rules <directory>`: the file given before the directory is dropped (exit 0 instead of 19 / 5)",
+    "C07-7": "structured JUnit output with several data files, a failing one before a compliant one: the later <testsuite> carries cumulative failures=",
+    "C08-7": "default console output on a template whose failing value sits on one of the first three lines, reported after another failure: panic in seek_line",
+    "C09-7": "--structured json/yaml for a data file on which every rule SKIPs: file status PASS with compliant empty",
+    "C10-7": "a data mapping that repeats a key: the first occurrence wins (value, subtree and position) instead of the last",
+    "C11-7": "a YAML block scalar with strip chomping whose content looks like a number / bool / null (|-\n 8080): typed by validate",
+    "C12-7": "more than 64 passing negated parameterised-rule calls accumulated over the pairs of one run: the nesting-depth counter leaks, later pairs error",
+    "C13-7": "`==` between lists of different lengths where the shorter is a prefix of the longer (incl. `== []`): holds",
+    "C14-7": "`not`/`NOT` followed by two or more blanks or a tab: the rules file is rejected",
+    "C15-7": "a variable holding a LIST of key names used as `x.%keys` where one key is absent: the unresolved entry is dropped, FAIL becomes PASS",
+    "C16-7": "`test` with -o json|yaml|junit, a rule referencing another named rule, two or more cases: the referenced status is the one of an earlier case",
+    "C17-7": "`validate --payload -i params`: the parameter files are ignored altogether",
+    "C18-7": "count(q) where the first result of q is unresolved and later ones resolve: 0",
+    "C19-7": "a YAML template with short-form tags (a tag on a mapping node, !Join \"x\", !Ref 123): rulegen emits rules its own template FAILs",
 }
 
 
